@@ -122,6 +122,8 @@ def c11_vocab(run):
     run.min_instances('RF7d', 50)
     rf_vocab.rf15(run)
     run.min_instances('RF15', 3)
+    rf_vocab.rf7j(run)
+    run.min_instances('RF7j', 8)
 
 
 def c10_vocab(run):
@@ -179,6 +181,7 @@ def c02_rf23(run):
 def c01_rf18(run):
     rf_flow.rf18(run, units=('mir', 'gen'))
     run.min_instances('RF18', 40)
+    rf_flow.rf33(run)
 
 
 def c04_rf18(run):
@@ -248,6 +251,7 @@ def c03_rf11(run):
     rf_code.rf4d(run)
     rf_iface.rf31a(run)
     rf_iface.rf31b(run)
+    rf_flow.rf33(run)
 
 
 def c06_rf11(run):
@@ -294,6 +298,7 @@ def c02_rf9(run):
     run.min_instances('RF9', 1500)
     rf_x86.rf7i(run)
     run.min_instances('RF7i', 40)
+    rf_x86.rf9m(run)
 
 
 def c02_rf26(run):
